@@ -1,4 +1,5 @@
 use super::scratch::DecoderScratch;
+use crate::common::MAX_BLOCK_SIZE;
 use crate::decoding::errors::ExecuteSequencesError;
 
 /// Take the provided decoder and execute the sequences stored within
@@ -9,6 +10,16 @@ pub fn execute_sequences(scratch: &mut DecoderScratch) -> Result<(), ExecuteSequ
 
     for idx in 0..scratch.sequences.len() {
         let seq = scratch.sequences[idx];
+
+        // A block may regenerate at most MAX_BLOCK_SIZE bytes. Check before copying anything so a
+        // small malicious block can't make us buffer gigabytes of matches.
+        let size_after_seq = u64::from(seq_sum) + u64::from(seq.ll) + u64::from(seq.ml);
+        if size_after_seq > u64::from(MAX_BLOCK_SIZE) {
+            return Err(ExecuteSequencesError::BlockTooLarge {
+                size: size_after_seq as usize,
+                max: MAX_BLOCK_SIZE as usize,
+            });
+        }
 
         if seq.ll > 0 {
             let high = literals_copy_counter + seq.ll as usize;
@@ -39,6 +50,13 @@ pub fn execute_sequences(scratch: &mut DecoderScratch) -> Result<(), ExecuteSequ
     }
     if literals_copy_counter < scratch.literals_buffer.len() {
         let rest_literals = &scratch.literals_buffer[literals_copy_counter..];
+        let size_after_rest = seq_sum as usize + rest_literals.len();
+        if size_after_rest > MAX_BLOCK_SIZE as usize {
+            return Err(ExecuteSequencesError::BlockTooLarge {
+                size: size_after_rest,
+                max: MAX_BLOCK_SIZE as usize,
+            });
+        }
         scratch.buffer.push(rest_literals);
         seq_sum += rest_literals.len() as u32;
     }
